@@ -11,6 +11,7 @@ Q_VA = "metapype.eml.rule:Rule._validate_attributes"
 Q_REQ = "metapype.eml.rule:Rule.is_required_attribute"
 Q_VALS = "metapype.eml.rule:Rule.allowed_attribute_values"
 
+_AOK = z3.Function("attributes_ok", smt.ElemArr, smt.MapArr, I, B)  # ghost name for the acceptance condition (keeps client VCs quantifier free)
 _CNTV = z3.Function("attr_violations_upto", smt.ElemArr, smt.MapArr, I, I)  # ghost: violated per-attribute constraints among the first k keys
 
 
@@ -60,23 +61,31 @@ def install(w, rule_name, A):
         return z3.And(z3.Not(smt.disj(missing_required(s, node))),
                       smt.FA([j], z3.Implies(z3.And(0 <= j, j < s.dn(d)), z3.Not(viol_at(s, node, j))), patterns=[s.dkey(d)[j]]))
 
+    def aok(s, node):
+        d = attrs(s, node)
+        return _AOK(s.dkey(d), s.dmap(d), s.dn(d))
+
     def requires(s, self, node, errs):
         return {"wf-attrs": s.dict_wf(attrs(s, node))}
 
     def axioms(s, self, node, errs):
-        return {"cnt0": cntv(s, node, 0) == 0}
+        return {"cnt0": cntv(s, node, 0) == 0, "aok-def": aok(s, node) == accept(s, node)}
 
     def ensures(s0, s, self, node, errs, result=None):
+        from .tree import no_new_nodes
         d = attrs(s0, node)
-        cl = {}
+        cl = {"no-new-nodes": no_new_nodes(s0, s)}
         if errs is None:
             cl["top:accepts-only-valid"] = accept(s0, node)
+            cl["named"] = aok(s0, node)
         else:
             n0 = s0.len(errs)
             total = v1(s0, node) + cntv(s0, node, s0.dn(d))
             j = z3.Int("en_j")
             cl["top:one-error-per-violation"] = s.len(errs) == n0 + total
+            cl["count-nonneg"] = total >= 0
             cl["top:empty-iff-valid"] = (s.len(errs) == n0) == accept(s0, node)
+            cl["named"] = (s.len(errs) == n0) == aok(s0, node)
             cl["top:earlier-entries-kept"] = smt.FA([j], z3.Implies(z3.And(0 <= j, j < n0), s.at(errs, j) == s0.at(errs, j)), patterns=[s.at(errs, j)])
             cl["top:entries-are-attribute-errors"] = smt.FA([j], z3.Implies(z3.And(n0 <= j, j < s.len(errs)), good_entry(s, errs, j, node)),
                                                             patterns=[s.at(errs, j)])
@@ -94,7 +103,8 @@ def install(w, rule_name, A):
         node = v.node
         d = attrs(s0, node)
         j = z3.Int("l2_j")
-        cl = {"bound": v._k <= s0.dn(d),
+        from .tree import no_new_nodes
+        cl = {"bound": v._k <= s0.dn(d), "no-new-nodes": no_new_nodes(s0, s), "top": s.top >= s0.top,
               "cnt-nonneg": cntv(s0, node, v._k) >= 0,
               "cnt-zero-iff-clean": (cntv(s0, node, v._k) == 0) == smt.FA([j], z3.Implies(z3.And(0 <= j, j < v._k), z3.Not(viol_at(s0, node, j))),
                                                                            patterns=[s0.dkey(d)[j]])}
@@ -116,7 +126,7 @@ def install(w, rule_name, A):
     def raises_cond(s, self, node, errs):
         if errs is not None:
             return z3.BoolVal(False)
-        return z3.Not(accept(s, node))
+        return z3.Not(aok(s, node)) if getattr(raises_cond, "named", False) else z3.Not(accept(s, node))
 
     con = Contract(Q_VA, params={"self": make_rule(rule_name), "node": "Node"}, requires=requires, axioms=axioms, ensures=ensures,
                    raises=[(MetapypeRuleError, raises_cond, None)], writes=("llen", "lelem"),
@@ -125,6 +135,10 @@ def install(w, rule_name, A):
                    mod=lambda s0, r, **kw: z3.BoolVal(False), result_ty="none", modular=False,
                    assumptions=("T-unfold(attr_violations_upto)",))
     w.loop(Q_VA, 2, inv=loop2_inv, axioms=loop2_axioms)
+    con.accept = accept
+    con.accept_named = aok
+    con.entry_axioms = axioms
+    con.use_named = lambda: setattr(raises_cond, "named", True)
 
     # ---- introspection
     def req_ensures(s0, s, self, attribute, result):
